@@ -136,7 +136,7 @@ def run(chk, replay=None):
         bad = rows[matched] if matched < len(rows) else None
         ctx = [r for r in rows[:matched + 1] if r["e"] == "MRun"][-1:]
         chk.violation("C04:mpi", trace, "event %d rejected by Trace_C04: %s in run %s" % (matched + 1, str(bad)[:300], str(ctx)[:400]))
-    if thorough and ok and not replay:
+    if ok and not replay:
         ok = mpicommon.big_leg(chk, "C04:mpi")
     if ok and not replay:
         real_mpi(chk, (1, 2, 3, 5) if thorough else (2,))
